@@ -328,9 +328,10 @@ func (d *Deliverer) Deliver(ctx context.Context, dl dispatcher.Delivery) dispatc
 // ---------------------------------------------------------------------------
 
 type Message struct {
-	ID     string
-	Route  string
-	Target string
+	ID      string
+	Route   string
+	Target  string
+	Headers map[string]string
 }
 
 type Scenario struct {
@@ -345,6 +346,8 @@ type Scenario struct {
 	// Real, when set, is a real deliverer (e.g. HTTPDeliverer); its results are
 	// recorded and compared with what Script says the target answers.
 	Real dispatcher.Deliverer
+	// AfterRun, when set, receives the recorded events after the oracle ran.
+	AfterRun func(evs []Event)
 }
 
 // RealDeliverer wraps a real deliverer and records its actual results.
@@ -393,6 +396,9 @@ func (d *RealDeliverer) Deliver(ctx context.Context, dl dispatcher.Delivery) dis
 
 // Run executes one scenario and evaluates the oracle.
 func Run(c *vlib.Ctx, sc Scenario) {
+	if only := os.Getenv("VERIF_ONLY"); only != "" && only != sc.Label {
+		return
+	}
 	clock := vlib.NewVClock(vlib.Epoch)
 	h, err := vlib.OpenStore(sc.Backend, vlib.StoreCfg{}, clock, c.Scratch())
 	if err != nil {
@@ -412,7 +418,7 @@ func Run(c *vlib.Ctx, sc Scenario) {
 	rec.FailEvery = sc.FailEvery
 	del := &Deliverer{rec: rec, script: sc.Script, count: map[string]int{}}
 	for _, m := range sc.Messages {
-		if err := h.Store.Enqueue(queue.Envelope{ID: m.ID, Route: m.Route, Target: m.Target, Payload: []byte(m.ID)}); err != nil {
+		if err := h.Store.Enqueue(queue.Envelope{ID: m.ID, Route: m.Route, Target: m.Target, Payload: []byte(m.ID), Headers: m.Headers}); err != nil {
 			c.Inconclusive("pushcheck enqueue: " + err.Error())
 			return
 		}
@@ -448,10 +454,19 @@ func Run(c *vlib.Ctx, sc Scenario) {
 	}
 	drained := d.Drain(10 * time.Second)
 	if !ok || !drained {
-		c.Inconclusive(fmt.Sprintf("pushcheck %s: watchdog fired (drive ok=%v, drained=%v)", sc.Label, ok, drained))
+		last := ""
+		for _, e := range rec.Events() {
+			if e.Kind == "watchdog" {
+				last = e.ErrText
+			}
+		}
+		c.Inconclusive(fmt.Sprintf("pushcheck %s: watchdog fired (drive ok=%v, drained=%v; last reason the clock was held: %s; %d events so far)", sc.Label, ok, drained, last, len(rec.Events())))
 		return
 	}
 	evaluate(c, sc, h, rec)
+	if sc.AfterRun != nil {
+		sc.AfterRun(rec.Events())
+	}
 }
 
 // drive advances virtual time whenever the dispatcher is idle until every
@@ -459,63 +474,85 @@ func Run(c *vlib.Ctx, sc Scenario) {
 // taken only when a lease lingers without a delivery in flight (injected
 // settlement failure: the lease has to expire in virtual time).
 func drive(h *vlib.Handle, rec *RecStore, clock *vlib.VClock, del *Deliverer, deadline time.Time) bool {
+	// The clock may only move while nothing is in motion. "Nothing in motion" is
+	// decided on a listing of every message that was read twice with the same
+	// result and with no delivery in flight before or after (Stats is assembled
+	// from several queries and can pair the counts of one instant with the
+	// earliest-due time of another).
 	idleSince := time.Time{}
-	leasedSince := time.Time{}
 	firstSeen := map[string]time.Time{}
-	for time.Now().Before(deadline) {
-		st, err := h.Store.Stats()
-		if err != nil {
+	inflight := func() int {
+		del.mu.Lock()
+		defer del.mu.Unlock()
+		return del.inflight
+	}
+	same := func(a, b vlib.Snapshot) bool {
+		if len(a) != len(b) {
 			return false
 		}
-		now := clock.NowNS()
-		del.mu.Lock()
-		inflight := del.inflight
-		del.mu.Unlock()
-		leased := st.ByState[queue.StateLeased]
-		queued := st.ByState[queue.StateQueued]
-		busy := inflight > 0
-		var next int64
-		if queued > 0 {
-			if nr := st.EarliestQueuedNextRun.UnixNano(); nr <= now {
-				busy = true
-			} else {
-				next = nr
+		for id, x := range a {
+			y, ok := b[id]
+			if !ok || x.State != y.State || x.LeaseID != y.LeaseID || x.NextRunAt != y.NextRunAt || x.Attempt != y.Attempt {
+				return false
 			}
 		}
-		if leased > 0 && !busy {
-			// A leased message is either on its way through the dispatcher (handed over
-			// by Dequeue, settlement call not yet returned: the clock must wait) or
-			// orphaned by a failed settlement (then only lease expiry moves it on).
-			if leasedSince.IsZero() {
-				leasedSince = time.Now()
-			}
-			snap, err := h.Snap()
-			if err != nil {
+		return true
+	}
+	why := ""
+	defer func() {
+		if why != "" {
+			rec.add(Event{Kind: "watchdog", Now: clock.NowNS(), ErrText: why})
+		}
+	}()
+	for time.Now().Before(deadline) {
+		now := clock.NowNS()
+		busy := inflight() > 0
+		why = fmt.Sprintf("deliveries in flight: %d", inflight())
+		var next int64
+		if !busy {
+			s1, err1 := h.Snap()
+			s2, err2 := h.Snap()
+			if err1 != nil || err2 != nil || !same(s1, s2) || inflight() > 0 {
 				busy = true
+				why = fmt.Sprintf("listing unstable (errors %v %v)", err1, err2)
 			} else {
-				for _, r := range snap {
-					if r.State != queue.StateLeased {
-						continue
-					}
-					known, settled := rec.LeaseSettled(r.LeaseID)
-					if !known || !settled {
-						first, ok := firstSeen[r.LeaseID]
-						if !ok {
-							first = time.Now()
-							firstSeen[r.LeaseID] = first
+				for _, r := range s2 {
+					switch r.State {
+					case queue.StateQueued:
+						if r.NextRunAt <= now {
+							busy = true // the dispatcher will pick it up
+							why = fmt.Sprintf("message %s (%s -> %s) is queued and due since %s of virtual time but is not being dequeued", r.ID, r.Route, r.Target, time.Duration(now-r.NextRunAt))
+						} else if next == 0 || r.NextRunAt < next {
+							next = r.NextRunAt
 						}
-						if time.Since(first) < 10*time.Second {
-							busy = true // (10s of wall clock per lease: a dispatcher that forgets a lease must not hang the run)
-							break
+					case queue.StateLeased:
+						// on its way through the dispatcher (handed over by Dequeue, settlement call
+						// not yet returned: the clock must wait) or orphaned by a failed settlement
+						// (then only lease expiry moves it on)
+						known, settled := rec.LeaseSettled(r.LeaseID)
+						if !known || !settled {
+							first, ok := firstSeen[r.LeaseID]
+							if !ok {
+								first = time.Now()
+								firstSeen[r.LeaseID] = first
+							}
+							if time.Since(first) < 10*time.Second {
+								busy = true // (10s of wall clock per lease: a dispatcher that forgets a lease must not hang the run)
+								why = fmt.Sprintf("lease %s of %s handed to the dispatcher (known=%v) and not settled", r.LeaseID, r.ID, known)
+							}
+						}
+						// an orphaned lease is offered again by the first dequeue whose sweep runs
+						// after expiry; SQLite sweeps at most once per 10ms of store clock, so the
+						// clock has to pass lease_until by that granularity
+						if t := r.LeaseUntil + int64(10*time.Millisecond); next == 0 || t < next {
+							next = t
 						}
 					}
-					if next == 0 || r.LeaseUntil < next {
-						next = r.LeaseUntil
+					if busy {
+						break
 					}
 				}
 			}
-		} else if leased == 0 {
-			leasedSince = time.Time{}
 		}
 		if busy {
 			idleSince = time.Time{}
@@ -527,13 +564,13 @@ func drive(h *vlib.Handle, rec *RecStore, clock *vlib.VClock, del *Deliverer, de
 				idleSince = time.Now()
 			}
 			if time.Since(idleSince) > 15*time.Millisecond {
+				why = ""
 				return true
 			}
 			time.Sleep(time.Millisecond)
 			continue
 		}
 		idleSince = time.Time{}
-		leasedSince = time.Time{}
 		if next > now {
 			clock.AdvanceTo(time.Unix(0, next))
 		} else {
